@@ -932,30 +932,34 @@ func runC03(c *core.Ctx) {
 	// ---- (iii-n) reflected methods whose parameters are typed Go slices, given lists with null members (literal, variable,
 	// variable default, unset variable as a member), empty lists, null and nothing
 	if own() {
-		const sdl = "type Query { strs(l: [String]): String ints(l: [Int]): String rows(l: [[String]]): String any(l: [String]): String }\n"
+		// (vstrs / vints / vtag are bound to VARIADIC methods: (l ...string), (l ...int), (prefix string, l ...string))
+		const sdl = "type Query { strs(l: [String]): String ints(l: [Int]): String rows(l: [[String]]): String any(l: [String]): String " +
+			"vstrs(l: [String]): String vints(l: [Int]): String vtag(prefix: String, l: [String]): String }\n"
 		lists := []string{`["a", null]`, `[null]`, `[]`, `null`, `["a", "b"]`, `[null, "z", null]`}
-		for _, f := range []string{"strs", "ints", "rows", "any"} {
+		for _, f := range []string{"strs", "ints", "rows", "any", "vstrs", "vints", "vtag"} {
 			for _, l := range lists {
 				lit := l
-				if f == "ints" {
+				if f == "ints" || f == "vints" {
 					lit = strings.NewReplacer(`"a"`, "1", `"b"`, "2", `"z"`, "3").Replace(l)
 				}
 				if f == "rows" {
 					lit = "[" + l + ", null]"
 				}
-				for mode := 0; mode < 4; mode++ {
+				for mode := 0; mode < 5; mode++ {
 					var text string
 					var vars map[string]interface{}
 					switch mode {
+					case 4:
+						text = "{ " + f + " }" // the argument left out
 					case 0:
 						text = "{ " + f + "(l: " + lit + ") }"
 					case 1:
 						v, _ := ggql.ParseValueString(lit)
-						text, vars = "query Q($v: "+map[string]string{"strs": "[String]", "ints": "[Int]", "rows": "[[String]]", "any": "[String]"}[f]+") { "+f+"(l: $v) }", map[string]interface{}{"v": v}
+						text, vars = "query Q($v: "+map[string]string{"strs": "[String]", "ints": "[Int]", "rows": "[[String]]", "any": "[String]", "vstrs": "[String]", "vints": "[Int]", "vtag": "[String]"}[f]+") { "+f+"(l: $v) }", map[string]interface{}{"v": v}
 					case 2:
-						text = "query Q($v: " + map[string]string{"strs": "[String]", "ints": "[Int]", "rows": "[[String]]", "any": "[String]"}[f] + " = " + lit + ") { " + f + "(l: $v) }"
+						text = "query Q($v: " + map[string]string{"strs": "[String]", "ints": "[Int]", "rows": "[[String]]", "any": "[String]", "vstrs": "[String]", "vints": "[Int]", "vtag": "[String]"}[f] + " = " + lit + ") { " + f + "(l: $v) }"
 					default:
-						text = "query Q($u: " + map[string]string{"strs": "String", "ints": "Int", "rows": "[String]", "any": "String"}[f] + ") { " + f + "(l: [$u]) }"
+						text = "query Q($u: " + map[string]string{"strs": "String", "ints": "Int", "rows": "[String]", "any": "String", "vstrs": "String", "vints": "Int", "vtag": "String"}[f] + ") { " + f + "(l: [$u]) }"
 					}
 					if !c.NextCase("typed-slice-parameter ResolveString: " + text + fmt.Sprintf(" vars=%v", vars)) {
 						continue
@@ -1063,6 +1067,10 @@ var c03StrangerValues = []func() interface{}{
 	// a struct whose unexported field is named like the schema field, with the exported getter Go code usually has beside it
 	func() interface{} { return &c03Hidden{id: "h"} },
 	func() interface{} { return c03Hidden{id: "hv"} },
+	// a struct that gets the field from an embedded pointer which is nil (and one where it is set)
+	func() interface{} { return &c03Embeds{} },
+	func() interface{} { return &c03Embeds{c03Stranger: &c03Stranger{ID: "e"}} },
+	func() interface{} { return c03Pair{&c03Embeds{c03Stranger: &c03Stranger{ID: "e"}}, &c03Embeds{}} },
 	// two Go types that both fit the object type, in one list / one after the other: methods bound for the first meet the second
 	func() interface{} { return c03Pair{c03StrangerM{}, c03StrangerN{}} },
 	func() interface{} { return c03Pair{&c03StrangerP{}, &c03StrangerQ{}} },
@@ -1072,6 +1080,10 @@ var c03StrangerValues = []func() interface{}{
 }
 
 type c03Pair struct{ a, b interface{} }
+type c03Embeds struct {
+	*c03Stranger
+	Extra int
+}
 type c03Hidden struct{ id string }
 
 func (h c03Hidden) ID() string { return "got:" + h.id }
@@ -1157,6 +1169,11 @@ func (*C03SliceQuery) Strs(l []string) string     { return fmt.Sprint(len(l)) }
 func (*C03SliceQuery) Ints(l []int) string        { return fmt.Sprint(len(l)) }
 func (*C03SliceQuery) Rows(l [][]string) string   { return fmt.Sprint(len(l)) }
 func (*C03SliceQuery) Any(l []interface{}) string { return fmt.Sprint(len(l)) }
+func (*C03SliceQuery) Vstrs(l ...string) string  { return fmt.Sprint(len(l)) }
+func (*C03SliceQuery) Vints(l ...int) string     { return fmt.Sprint(len(l)) }
+func (*C03SliceQuery) Vtag(prefix string, l ...string) string {
+	return prefix + fmt.Sprint(len(l))
+}
 
 // C03In is the Go struct an application registers for the input type In (family iii-f).
 type C03In struct {
